@@ -320,6 +320,9 @@ func (s *Sched) checkStuck() {
 		for _, d := range stuck {
 			if i := strings.Index(d, " at "); i >= 0 {
 				site = d[i+4:]
+				if j := strings.Index(site, " ["); j >= 0 {
+					site = site[:j]
+				}
 				break
 			}
 		}
@@ -775,7 +778,7 @@ func (s *Sched) Stuck(onlyWorkload bool) []string {
 					}
 				}
 			}
-			d += " at " + siteOfGoroutine(dump, t.goid)
+			d += " at " + siteOfGoroutine(dump, t.goid) + " [" + framesOfGoroutine(dump, t.goid) + "]"
 		}
 		out = append(out, d)
 	}
@@ -1199,6 +1202,40 @@ func trimStack(st string) string {
 		lines = lines[:40]
 	}
 	return strings.Join(lines, "\n")
+}
+
+// framesOfGoroutine lists the library frames of a goroutine, innermost first.
+func framesOfGoroutine(dump string, g uint64) string {
+	hdr := fmt.Sprintf("goroutine %d [", g)
+	i := strings.Index(dump, hdr)
+	if i < 0 {
+		return "?"
+	}
+	rest := dump[i:]
+	if j := strings.Index(rest, "\n\n"); j >= 0 {
+		rest = rest[:j]
+	}
+	var out []string
+	for _, l := range strings.Split(rest, "\n") {
+		if strings.HasPrefix(l, "\t") || strings.HasPrefix(l, "goroutine ") || l == "" {
+			continue
+		}
+		fn := l
+		if j := strings.LastIndexByte(fn, '('); j > 0 {
+			fn = fn[:j]
+		}
+		if !strings.HasPrefix(fn, modPrefix) || strings.Contains(fn, "/simrt.") {
+			continue
+		}
+		if k := strings.LastIndexByte(fn, '/'); k >= 0 {
+			fn = fn[k+1:]
+		}
+		out = append(out, fn)
+		if len(out) >= 10 {
+			break
+		}
+	}
+	return strings.Join(out, " < ")
 }
 
 func siteOfGoroutine(dump string, g uint64) string {
